@@ -273,7 +273,7 @@ func PairSetCount() int { return len(pairSets) }
 
 // raggedShapes are the inner lengths of the ragged nests (-1 = null).
 var raggedShapes = [][]int{
-	{0, 2}, {2, 0}, {0, 1}, {0, 0}, {1, 2}, {0, 1, 2}, {3, 0, 1}, {-1, 2}, {2, -1}, {1, 1}, {0}, {2, 3},
+	{0, 2}, {2, 0}, {0, 1}, {0, 0}, {1, 2}, {0, 1, 2}, {3, 0, 1}, {-1, 2}, {2, -1}, {1, 1}, {0}, {2, 3}, {1, 0, 3, 0}, {0, 2, 0},
 }
 
 // RaggedHasNull reports whether ragged shape sel has a null element.
